@@ -126,10 +126,13 @@ class Registry:
                 if f.name in self.spec_functions:
                     raise RuntimeError('duplicate spec function %s' % f.name)
                 self.spec_functions[f.name] = f
+        self.axioms = {}
         for f in self.spec_functions.values():
-            if 'lemma' in f.decorators:
+            if 'lemma' in f.decorators or 'axiom' in f.decorators:
                 c = self.parse_contract_body(f.module.relpath, f.name, f.node, f.module.path)
                 self.lemmas[f.name] = (f, c)
+                if 'axiom' in f.decorators:
+                    self.axioms[f.name] = (f, c)       # assumed (builtin contract), never verified; listed in evidence
 
     def is_spec_module(self, module):
         return module is not None and module.name in self.spec_prog.modules and \
@@ -451,6 +454,13 @@ class Registry:
         c = self.contracts.get((rel, qual, None, label))
         if c is not None:
             return c
+        # abstract contract declared for (a base of) the receiver's class, even where that class only inherits the method
+        if self_cls is not None and isinstance(self_cls, ClassInfo):
+            for k in self.prog.mro(self_cls):
+                if isinstance(k, ClassInfo):
+                    c = self.contracts.get((k.module.relpath, k.name + '.' + func.name, None, label))
+                    if c is not None and c.abstract:
+                        return c
         # abstract contract of an overridden base method (callers are checked against it; every override refines it)
         if func.cls is not None:
             for k in self.prog.mro(func.cls)[1:]:
